@@ -641,10 +641,11 @@ def check_C15(report, tier, seed, replay=None):
             trace.append(ri)
             report.case((i, j, op), len(ops) > 3)
             report.count("op:" + op[0])
-            if ri != rm:
+            mismatch = ri != rm
+            if mismatch:
                 report.broke("correspondence C15 (session step: model client vs real client)",
                              "step %d %r impl=%r model=%r" % (j, op, ri, rm), dict(desc, step=j))
-                break
+            # the property itself is evaluated on the real client whether or not the model agrees
             head = ri.split(" ")[0]
             problem = None
             if after["bad"]:
@@ -668,6 +669,8 @@ def check_C15(report, tier, seed, replay=None):
                 problem = "operation raised %s against a conforming server" % head
             if problem:
                 report.violation("session step %d %r: %s" % (j, op, problem), dict(desc, step=j, trace=trace))
+                break
+            if mismatch:
                 break
         ms = rc.dump("model")
         fs = rc.dump()
@@ -914,6 +917,23 @@ def check_C10(report, tier, seed, replay=None):
                             report.broke("correspondence C10 (second connect)", "impl=%r model=%r" % (ri2, rm2), desc)
                         probe_all(rc, label + " then failing connect", desc)
                     rc.close()
+                    # 4b. a second connect that fails BEFORE any AUTHENTICATE exchange (STARTTLS asked but not offered;
+                    #     the only acceptable mechanism not announced) must forget the first session as well
+                    if good and fault is None:
+                        other = b"LOGIN" if mech != b"LOGIN" else b"PLAIN"
+                        for why, second in (("STARTTLS not offered", ("connect", b"user", b"secret", b"", True, None)),
+                                            ("mechanism not announced", ("connect", b"user", b"secret", b"", False, other))):
+                            rc = Reactive(drv, rng, sasl_pre=mech, password=b"secret", segment=random_segmenter(rng))
+                            desc = {"property": "C10", "server": rc.describe(), "second_connect": why}
+                            r1, m1, _ = rc.both(("connect", b"user", b"secret", b"", False, None))
+                            r2, m2, _ = rc.both(second)
+                            if r1 != m1 or (m2 is not None and r2 != m2):
+                                report.broke("correspondence C10 (second connect, %s)" % why,
+                                             "impl=%r/%r model=%r/%r" % (r1, r2, m1, m2), desc)
+                            if r2.startswith("D:true"):
+                                report.violation("second connect (%s) reported success" % why, dict(desc, history=why))
+                            probe_all(rc, "connect(%s) then connect failing early (%s)" % (mech.decode(), why), desc)
+                            rc.close()
         # 5. STARTTLS
         tls_cases = [
             ("unavailable", dict(starttls=False), None, False),
